@@ -6,7 +6,8 @@
 //!                  frames, converted as a singleton list;
 //!   neighbourhood  every single-character deletion, and every insertion / substitution of a
 //!                  structural symbol at every character position, of every rule of the rule
-//!                  alphabet, converted as a singleton list;
+//!                  alphabet, converted as a singleton list (thorough: also every pair of such
+//!                  edits over a reduced symbol set);
 //!   lists          every ordered list without repetition of <= k alphabet rules.
 //!
 //! Oracle (written from the property text, nothing copied from /repo):
@@ -226,14 +227,15 @@ fn shape(rule: &str) -> Shape<'_> {
 }
 
 /// "Plain pattern" of the property: a network rule whose pattern has no `*`, no `^` other than one
-/// trailing `^`, is ASCII and is not a full regex.
+/// trailing `^`, no backslash (the matcher hands backslashes to its regex compiler unescaped, so
+/// such patterns are not literal text), is ASCII and is not a full regex.
 fn is_plain(rule: &str) -> bool {
     if looks_cosmetic(rule) || rule.starts_with('!') || rule.starts_with('[') {
         return false;
     }
     let sh = shape(rule);
     let b = sh.body;
-    if b.is_empty() || !b.is_ascii() || b.contains('*') {
+    if b.is_empty() || !b.is_ascii() || b.contains('*') || b.contains('\\') {
         return false;
     }
     if b.len() > 1 && b.starts_with('/') && b.ends_with('/') {
@@ -241,6 +243,28 @@ fn is_plain(rule: &str) -> bool {
     }
     let inner = b.strip_suffix('^').unwrap_or(b);
     !inner.contains('^')
+}
+
+/// `||` rules whose host text is empty or starts with '.', also after the leading `www.` labels
+/// that hostname rules ignore: which hosts such a rule covers is not pinned (DESIGN C02), so the
+/// inclusion clause is Unspecified for them.
+fn unpinned_host_text(rule: &str) -> bool {
+    let sh = shape(rule);
+    if sh.left != LeftMode::Host {
+        return false;
+    }
+    let h = sh.body.split('/').next().unwrap_or("");
+    let h = h.strip_suffix('^').unwrap_or(h);
+    let mut t = h;
+    loop {
+        if t.is_empty() || t.starts_with('.') {
+            return true;
+        }
+        match t.strip_prefix("www.") {
+            Some(r) => t = r,
+            None => return false,
+        }
+    }
 }
 
 fn pure_scheme_pattern(rule: &str) -> bool {
@@ -417,8 +441,13 @@ struct Single {
     /// None: the singleton conversion panicked
     yields: Option<bool>,
     panic_sig: Option<String>,
-    /// Some for plain patterns the real parser accepts: URLs accepted by the real matcher
+    /// Some for plain patterns the real parser accepts: URLs accepted by the real matcher, minus
+    /// the URLs on which the clause is Unspecified
     accepted: Option<Vec<u64>>,
+    /// number of (rule, URL) pairs left Unspecified
+    unspec: u64,
+    /// signature of the inclusion failure of the singleton conversion, if any
+    incl_sig: Option<String>,
 }
 
 fn option_values<'a>(opts: &'a str, names: &[&str]) -> Vec<&'a str> {
@@ -472,15 +501,36 @@ fn classify_panic(rule: &str, loc: &str) -> String {
 }
 
 fn single_info(rule: &str, env: &Env) -> Single {
+    let mut out = vec![];
     let (yields, panic_sig) = match convert(&[rule]) {
         Conv::ParsePanic(loc) => (None, Some(format!("c20.parse-panic@{}", loc))),
         Conv::Panic(loc) => (None, Some(classify_panic(rule, &loc))),
         Conv::Refused => (Some(false), None),
-        Conv::Done(r, _) => (Some(!r.is_empty()), None),
+        Conv::Done(r, _) => {
+            out = r;
+            (Some(!out.is_empty()), None)
+        }
     };
     let t = rule.trim();
-    let accepted = if is_plain(t) { real_accepts(t, env) } else { None };
-    Single { yields, panic_sig, accepted }
+    let mut unspec = 0;
+    let mut accepted = if is_plain(t) { real_accepts(t, env) } else { None };
+    if let Some(acc) = accepted.as_mut() {
+        let all = unpinned_host_text(t);
+        let ws_only = pure_scheme_pattern(t);
+        // Unspecified: the hosts covered by `||` rules with an empty / dot-leading host text, and
+        // the websocket URLs covered by a pure `|http://`-style scheme rule
+        for i in 0..env.urls.len() {
+            if bit(acc, i) && (all || (ws_only && env.ws[i])) {
+                acc[i / 64] &= !(1 << (i % 64));
+                unspec += 1;
+            }
+        }
+    }
+    let incl_sig = match (&accepted, yields) {
+        (Some(acc), Some(true)) => inclusion(t, acc, &out, true, env, &mut 0).map(|f| f.sig),
+        _ => None,
+    };
+    Single { yields, panic_sig, accepted, unspec, incl_sig }
 }
 
 // ------------------------------------------------------------------------------------------------
@@ -523,6 +573,9 @@ fn inclusion_sig(rule: &str, url_idx: usize, filter_bits: &[u64], env: &Env) -> 
         (LeftMode::Host, true) => "host-right",
     };
     let b = sh.body;
+    if b.ends_with('^') && sh.right {
+        return "c20.inclusion.trailing-caret-before-right-anchor".into();
+    }
     let feature = if sh.left == LeftMode::Host && b.starts_with('.') {
         "host-text-leading-dot"
     } else if sh.left == LeftMode::Host && b.starts_with('/') {
@@ -543,8 +596,91 @@ fn case_of(rules: &[&str]) -> Value {
     json!({ "rules": rules })
 }
 
+/// Simplest witness first: fewer rules, then shorter text; ties broken by a hash of the text so that
+/// the witness kept per signature does not depend on the thread schedule.
 fn size_of(rules: &[&str]) -> u64 {
-    rules.len() as u64 * 10_000 + rules.iter().map(|r| r.len() as u64).sum::<u64>()
+    let base = rules.len() as u64 * 10_000 + rules.iter().map(|r| r.len() as u64).sum::<u64>();
+    (base << 16) | (vh::util::hash_str(&rules.join("\n")) & 0xffff)
+}
+
+struct InclFail {
+    sig: String,
+    what: String,
+    url: Option<usize>,
+}
+
+/// Inclusion clause for one plain rule: the URLs in `acc` must be accepted by the url-filter of
+/// every (singleton conversion) / at least one (list) network entry of `out`, the appended
+/// first-party-document exception aside.
+fn inclusion(rule: &str, acc: &[u64], out: &[CbRule], require_all: bool, env: &Env, evals: &mut u64) -> Option<InclFail> {
+    let n = out.len();
+    let cands: Vec<&CbRule> = out
+        .iter()
+        .enumerate()
+        .filter(|(i, r)| r.action.typ != CbType::CssDisplayNone && !(*i + 1 == n && is_fp_document_exception(r)))
+        .map(|(_, r)| r)
+        .collect();
+    if cands.is_empty() {
+        return Some(InclFail {
+            sig: "c20.inclusion.no-network-entry-for-converted-rule".into(),
+            what: format!("rule {:?} converts on its own but no network entry was emitted", rule),
+            url: None,
+        });
+    }
+    let mut best: Option<(usize, usize, String, Rc<Compiled>)> = None; // (missed, first missed, filter, bits)
+    let mut rejected: Option<String> = None;
+    let mut all_ok = true;
+    let mut any_ok = false;
+    for c in &cands {
+        let cs = c.trigger.url_filter_is_case_sensitive == Some(true);
+        let comp = compiled(&c.trigger.url_filter, cs, env);
+        *evals += env.urls.len() as u64;
+        match &comp.bits {
+            None => {
+                all_ok = false;
+                rejected = Some(c.trigger.url_filter.clone());
+            }
+            Some(fb) => {
+                let mut missed = 0;
+                let mut first = usize::MAX;
+                for w in 0..env.words {
+                    let m = acc[w] & !fb[w];
+                    if m != 0 {
+                        if first == usize::MAX {
+                            first = w * 64 + m.trailing_zeros() as usize;
+                        }
+                        missed += m.count_ones() as usize;
+                    }
+                }
+                if missed == 0 {
+                    any_ok = true;
+                } else {
+                    all_ok = false;
+                    if best.as_ref().map(|b| missed < b.0).unwrap_or(true) {
+                        best = Some((missed, first, c.trigger.url_filter.clone(), comp.clone()));
+                    }
+                }
+            }
+        }
+    }
+    if if require_all { all_ok } else { any_ok } {
+        return None;
+    }
+    match best {
+        Some((missed, first, filter, comp)) => Some(InclFail {
+            sig: inclusion_sig(rule, first, comp.bits.as_ref().unwrap(), env),
+            what: format!("rule {:?} matches {:?} (and {} more URLs of the universe) but the emitted url-filter {:?} does not", rule, env.urls[first], missed - 1, filter),
+            url: Some(first),
+        }),
+        None => {
+            let f = rejected.unwrap_or_default();
+            if safari_subset(&f).is_ok() {
+                Some(InclFail { sig: "c20.urlfilter.regex-crate-rejects".into(), what: format!("url-filter {:?} is in the subset but the regex crate rejects it", f), url: None })
+            } else {
+                None // already reported by the urlfilter clause
+            }
+        }
+    }
 }
 
 /// Converts `rules` as one list and checks every clause. `singles[i]` belongs to `rules[i]`.
@@ -592,10 +728,32 @@ fn check_conversion(rules: &[&str], singles: &[&Single], env: &Env, l: &mut Loca
     }
     l.hist(&format!("block={} ignore-previous={} css={}", nb, ni, nc));
 
+    // witnesses for the clauses (evidence that the universe can violate each of them)
+    if ni > 1 && nb + nc > 0 {
+        l.count("conversions_with_exception_and_other_entries", 1);
+    }
     // per emitted rule: ascii, url-filter subset, if/unless
     for r in &out {
         l.evaluations += 1;
         let t = &r.trigger;
+        if t.url_filter.contains("\\|") {
+            l.count("entries_with_escaped_pipe", 1);
+        }
+        if t.url_filter.contains("\\{") {
+            l.count("entries_with_escaped_brace", 1);
+        }
+        if t.url_filter.contains("\\$") || t.url_filter.contains("\\^") {
+            l.count("entries_with_escaped_caret_or_dollar", 1);
+        }
+        if t.if_domain.is_some() {
+            l.count("entries_with_if_domain", 1);
+        }
+        if t.unless_domain.is_some() {
+            l.count("entries_with_unless_domain", 1);
+        }
+        if t.if_domain.iter().chain(t.unless_domain.iter()).flatten().any(|d| d.contains("xn--")) {
+            l.count("entries_with_punycoded_domain", 1);
+        }
         let mut strings: Vec<(&'static str, &str)> = vec![("url-filter", t.url_filter.as_str())];
         if let Some(s) = &r.action.selector {
             strings.push(("selector", s));
@@ -641,10 +799,16 @@ fn check_conversion(rules: &[&str], singles: &[&Single], env: &Env, l: &mut Loca
         let mut exp: Vec<&str> = rules.iter().zip(singles).filter(|(_, s)| s.yields == Some(true)).map(|(r, _)| r.trim()).collect();
         let exp_in_order = exp.clone();
         let mut got: Vec<&str> = used.iter().map(|s| s.as_str()).collect();
+        // order: not pinned by the property ("exactly the set"); counted only
         if got == exp_in_order {
             l.count("filters_used_in_input_order", 1);
         } else {
             l.count("filters_used_not_in_input_order", 1);
+            let mut part: Vec<&str> = exp_in_order.iter().copied().filter(|r| !looks_cosmetic(r)).collect();
+            part.extend(exp_in_order.iter().copied().filter(|r| looks_cosmetic(r)));
+            if part == got {
+                l.count("filters_used_order_is_network_rules_then_cosmetic_rules", 1);
+            }
         }
         exp.sort_unstable();
         got.sort_unstable();
@@ -671,90 +835,24 @@ fn check_conversion(rules: &[&str], singles: &[&Single], env: &Env, l: &mut Loca
     // inclusion for plain patterns
     let singleton = rules.len() == 1;
     for (rule, s) in rules.iter().zip(singles) {
+        if singleton {
+            l.unspecified += s.unspec;
+        }
         let acc = match (&s.accepted, s.yields) {
             (Some(a), Some(true)) => a,
             _ => continue,
         };
-        let mut acc = acc.clone();
-        if pure_scheme_pattern(rule.trim()) {
-            // Unspecified: which websocket URLs a pure `|http://`-style scheme rule covers
-            for (i, w) in env.ws.iter().enumerate() {
-                if *w && bit(&acc, i) {
-                    acc[i / 64] &= !(1 << (i % 64));
-                    l.unspecified += 1;
-                }
-            }
-        }
-        // candidates: every network entry except the appended first-party-document exception
-        let n = out.len();
-        let cands: Vec<&CbRule> = out
-            .iter()
-            .enumerate()
-            .filter(|(i, r)| r.action.typ != CbType::CssDisplayNone && !(*i + 1 == n && is_fp_document_exception(r)))
-            .map(|(_, r)| r)
-            .collect();
-        let mut best: Option<(usize, usize, String, Rc<Compiled>)> = None; // (missed count, first missed, filter)
-        let mut all_ok = true;
-        let mut any_ok = false;
-        for c in &cands {
-            let cs = c.trigger.url_filter_is_case_sensitive == Some(true);
-            let comp = compiled(&c.trigger.url_filter, cs, env);
-            l.evaluations += env.urls.len() as u64;
-            match &comp.bits {
-                None => {
-                    all_ok = false;
-                    if safari_subset(&c.trigger.url_filter).is_ok() {
-                        fail(l, "c20.urlfilter.regex-crate-rejects".into(), format!("url-filter {:?} is in the subset but the regex crate rejects it; input {:?}", c.trigger.url_filter, rules));
-                    }
-                }
-                Some(fb) => {
-                    let mut missed = 0;
-                    let mut first = usize::MAX;
-                    for w in 0..env.words {
-                        let m = acc[w] & !fb[w];
-                        if m != 0 {
-                            if first == usize::MAX {
-                                first = w * 64 + m.trailing_zeros() as usize;
-                            }
-                            missed += m.count_ones() as usize;
-                        }
-                    }
-                    if missed == 0 {
-                        any_ok = true;
-                    } else {
-                        all_ok = false;
-                        if best.as_ref().map(|b| missed < b.0).unwrap_or(true) {
-                            best = Some((missed, first, c.trigger.url_filter.clone(), comp.clone()));
-                        }
-                    }
-                }
-            }
-        }
-        let ok = if cands.is_empty() { false } else if singleton { all_ok } else { any_ok };
-        if !ok {
-            match best {
-                Some((missed, first, filter, comp)) => {
-                    let sig = inclusion_sig(rule, first, comp.bits.as_ref().unwrap(), env);
-                    l.mismatch(Mismatch {
-                        sig,
-                        what: format!(
-                            "rule {:?} matches {:?} (and {} more URLs of the universe) but the emitted url-filter {:?} does not; input {:?}",
-                            rule,
-                            env.urls[first],
-                            missed - 1,
-                            filter,
-                            rules
-                        ),
-                        case: json!({ "rules": rules, "url": env.urls[first] }),
-                        size: size_of(rules) * 100 + env.urls[first].len() as u64,
-                    });
-                }
-                None => {
-                    if cands.is_empty() {
-                        fail(l, "c20.inclusion.no-network-entry-for-converted-rule".into(), format!("rule {:?} is reported as converted but no network entry was emitted; input {:?}", rule, rules));
-                    }
-                }
-            }
+        if let Some(f) = inclusion(rule, acc, &out, singleton, env, &mut l.evaluations) {
+            // in a list the entries cannot be attributed to their inputs; a rule that already fails
+            // on its own keeps the signature of that failure
+            let sig = if singleton { f.sig } else { s.incl_sig.clone().unwrap_or_else(|| "c20.inclusion.only-inside-a-list".into()) };
+            let url = f.url.map(|u| env.urls[u].clone());
+            l.mismatch(Mismatch {
+                sig,
+                what: format!("{}; input {:?}", f.what, rules),
+                case: json!({ "rules": rules, "url": url }),
+                size: size_of(rules),
+            });
         }
     }
 }
@@ -832,25 +930,35 @@ const SYMBOLS: [&str; 27] = [
 
 /// All single edits of `rule` at character position `p` (0..=nchars): deletion and substitution of
 /// the character at `p` (if any), insertion before `p`.
-fn edits_at(rule: &str, p: usize, out: &mut Vec<String>) {
+fn edits_at(rule: &str, p: usize, symbols: &[&str], out: &mut Vec<String>) {
     out.clear();
     let chars: Vec<(usize, char)> = rule.char_indices().collect();
     let at = if p < chars.len() { chars[p].0 } else { rule.len() };
     if p < chars.len() {
         let end = at + chars[p].1.len_utf8();
         out.push(format!("{}{}", &rule[..at], &rule[end..]));
-        for s in SYMBOLS {
+        for s in symbols {
             out.push(format!("{}{}{}", &rule[..at], s, &rule[end..]));
         }
     }
-    for s in SYMBOLS {
+    for s in symbols {
         out.push(format!("{}{}{}", &rule[..at], s, &rule[at..]));
     }
 }
 
+/// Reduced symbol set of the two-edit neighbourhood (thorough tier).
+const SYMBOLS2: [&str; 8] = ["|", "*", "^", "$", ",", "~", "=", "\u{644}"];
+
 const SIGMA: [&str; 6] = ["a", "b", ".", "/", "*", "^"];
 const MODES: [(&str, &str); 6] = [("", ""), ("|", ""), ("", "|"), ("|", "|"), ("||", ""), ("||", "|")];
 const FRAMES: [(&str, &str); 4] = [("", ""), ("@@", ""), ("", "$image"), ("", "$~third-party,domain=x.com")];
+
+/// Exactly two indices per sweep are written out as samples; VERIF_SEED chooses which.
+fn is_sample(i: u64, n: u64, seed: u64) -> bool {
+    let a = (seed.wrapping_mul(2_654_435_761).wrapping_add(n / 3)) % n;
+    let b = (a + n / 2) % n;
+    i == a || i == b
+}
 
 fn check_single(rule: &str, env: &Env, l: &mut Local) {
     let s = single_info(rule, env);
@@ -872,7 +980,7 @@ fn check(ctx: &Ctx) -> i32 {
     let alpha = alphabet(&env);
     vh::util::assert_no_hash_collisions(["x.com", "y.com", "caf\u{e9}.fr", "xn--caf-dma.fr", "a.b", "b.a", "ads.net", "a", "b", "ads"]);
 
-    let n_len: u32 = ctx.tier.pick(4, 5);
+    let n_len: u32 = ctx.tier.pick(6, 7);
     let k_list: u32 = ctx.tier.pick(2, 3);
     ctx.bound("pattern_body_max_len", n_len);
     ctx.bound("pattern_alphabet", json!(SIGMA));
@@ -901,12 +1009,13 @@ fn check(ctx: &Ctx) -> i32 {
     // sweep 1: short patterns, every anchor mode
     let bodies = count_strings_upto(SIGMA.len() as u64, n_len) - 1;
     let per_body = (MODES.len() * FRAMES.len()) as u64;
-    ctx.par_range("patterns", bodies * per_body, 32, |i, l| {
+    let n_patterns = bodies * per_body;
+    ctx.par_range("patterns", n_patterns, 32, |i, l| {
         let body = nth_string(i / per_body + 1, &SIGMA);
         let k = (i % per_body) as usize;
         let (m, f) = (MODES[k % MODES.len()], FRAMES[k / MODES.len()]);
         let rule = format!("{}{}{}{}{}", f.0, m.0, body, m.1, f.1);
-        if l.samples.len() < 2 && (i + ctx.seed) % 7919 == 0 {
+        if is_sample(i, n_patterns, ctx.seed) {
             l.samples.push(json!({"sweep": "patterns", "rules": [rule]}));
         }
         check_single(&rule, &env, l);
@@ -923,15 +1032,38 @@ fn check(ctx: &Ctx) -> i32 {
         let r = starts.partition_point(|&s| s <= i) - 1;
         let p = (i - starts[r]) as usize;
         let mut eds = vec![];
-        edits_at(&alpha[r], p, &mut eds);
+        edits_at(&alpha[r], p, &SYMBOLS, &mut eds);
         for (n, e) in eds.iter().enumerate() {
-            if l.samples.len() < 2 && (i + n as u64 + ctx.seed) % 4099 == 0 {
+            if is_sample(i, positions, ctx.seed) && n as u64 == (ctx.seed + i) % eds.len() as u64 {
                 l.samples.push(json!({"sweep": "neighbourhood", "base": alpha[r], "rules": [e]}));
             }
             check_single(e, &env, l);
         }
         l.count("neighbour_rules", eds.len() as u64);
     });
+
+    // sweep 2b (thorough): two edits over the reduced symbol set, second edit at or after the first
+    if ctx.tier == vh::Tier::Thorough {
+        ctx.bound("two_edit_symbols", json!(SYMBOLS2));
+        ctx.par_range("neighbourhood-2", positions, 1, |i, l| {
+            let r = starts.partition_point(|&s| s <= i) - 1;
+            let p = (i - starts[r]) as usize;
+            let (mut e1, mut e2) = (vec![], vec![]);
+            edits_at(&alpha[r], p, &SYMBOLS2, &mut e1);
+            let mut n = 0u64;
+            for a in &e1 {
+                let len = a.chars().count();
+                for q in p..=len {
+                    edits_at(a, q, &SYMBOLS2, &mut e2);
+                    for b in &e2 {
+                        check_single(b, &env, l);
+                    }
+                    n += e2.len() as u64;
+                }
+            }
+            l.count("two_edit_rules", n);
+        });
+    }
 
     // sweep 3: all ordered lists of <= k alphabet rules
     let n_lists = count_arrangements_upto(alpha.len() as u64, k_list);
@@ -940,7 +1072,7 @@ fn check(ctx: &Ctx) -> i32 {
         nth_arrangement(i, alpha.len() as u64, &mut idx);
         let rules: Vec<&str> = idx.iter().map(|&j| alpha[j].as_str()).collect();
         let ss: Vec<&Single> = idx.iter().map(|&j| &singles[j]).collect();
-        if l.samples.len() < 2 && rules.len() >= 2 && (i + ctx.seed) % 10007 == 0 {
+        if is_sample(i, n_lists, ctx.seed) {
             l.samples.push(json!({"sweep": "lists", "rules": rules}));
         }
         check_conversion(&rules, &ss, &env, l);
